@@ -184,7 +184,7 @@ func forEachInput(e Entry, thorough bool, rng *rand.Rand, fn func(class string, 
 		fn("extend", 2, append(append([]byte{}, s...), s...))
 		pos := positions(len(s), dense)
 		for _, p := range pos {
-			for _, v := range append(append([]byte{}, byteVals...), s[p]+1, s[p]-1) {
+			for _, v := range append(append([]byte{}, byteVals...), s[p]+1, s[p]-1, s[p]+2, s[p]-2, s[p]^0x20) { // neighbours of the value: the next tag, version or magic letter; the other letter case
 				if v == s[p] {
 					continue
 				}
@@ -209,6 +209,37 @@ func forEachInput(e Entry, thorough bool, rng *rand.Rand, fn func(class string, 
 						m := append([]byte{}, s...)
 						copy(m[p:], ww)
 						fn("win4", p, m)
+					}
+				}
+			}
+		}
+		// offsets and pointers: every 16-bit window set to small values, to positions inside the
+		// input, to its own position and to the input's length (a chain or pointer that leads
+		// back to itself or to an earlier place must end the decoding, not restart it)
+		if len(s) <= 1200 {
+			step := 4
+			if thorough {
+				step = 1
+			}
+			for _, p := range pos {
+				if p+2 > len(s) {
+					continue
+				}
+				vals := []int{p, p - 1, p + 1, p + 2, p - 2, p - 4, len(s) - 2, len(s) - 1, len(s), len(s) + 1}
+				for k := 0; k <= 96 && k <= len(s)+4; k += step {
+					vals = append(vals, k)
+				}
+				for _, v := range vals {
+					if v < 0 || v > 0xFFFF {
+						continue
+					}
+					for _, ww := range [][]byte{{byte(v), byte(v >> 8)}, {byte(v >> 8), byte(v)}} {
+						if s[p] == ww[0] && s[p+1] == ww[1] {
+							continue
+						}
+						m := append([]byte{}, s...)
+						copy(m[p:], ww)
+						fn("ptr2", p, m)
 					}
 				}
 			}
